@@ -149,7 +149,13 @@ Definition spec_raw (t : tkind) (sid : N) (tx : N) (rs : regs) (o : opc) : sres 
                 end
        end.
 
+(* call 7: the application adds a register to the server's map while it is serving (Regs.AddReg(addr, 1)):
+   a register that exists keeps its value, a new one holds 0; no frame travels *)
+Definition add_reg (rs : regs) (a : N) : regs :=
+  if existsb (fun r => r_addr r =? a) rs then rs else rs ++ [{| r_addr := a; r_val := 0; r_v := VNone |}].
+
 Definition spec_op (t : tkind) (sid : N) (tx : N) (rs : regs) (o : opc) : sres :=
+  if o_kind o =? 7 then SNext tx (add_reg rs (o_addr o)) else
   if o_kind o =? 6 then spec_raw t sid tx rs o else
   let tx' := if is_tcp t then (tx + 1) mod 65536 else tx in
   let req := s_request (o_kind o) (o_addr o) (o_arg o) in
@@ -242,6 +248,7 @@ Definition model_raw (t : tkind) (sid : N) (w : world) (o : opc) : option world 
   end.
 
 Definition model_op (t : tkind) (sid : N) (w : world) (o : opc) : option world :=
+  if o_kind o =? 7 then Some {| w_ctx := w_ctx w; w_stx := w_stx w; w_regs := add_reg (w_regs w) (o_addr o) |} else
   if o_kind o =? 6 then model_raw t sid w o else
   let '(ctx', pkt) := client_send t (w_ctx w) (o_id o) (model_request o) in
   if negb (bytes_eqb pkt (o_req_sent o)) then None
